@@ -328,3 +328,11 @@ package common
 //@   ensures no: !r ==> (forall i :: {isc.Indices[i]} 0 <= i && i < len(isc.Indices) ==> !(isc.Indices[i] == valIndex && i / (spec.SYNC_COMMITTEE_SIZE / SYNC_COMMITTEE_SUBNET_COUNT) == subnet))
 //@   loop 1
 //@     invariant forall i :: {isc.Indices[i]} 0 <= i && i <= rangeindex ==> !(isc.Indices[i] == valIndex && i / (spec.SYNC_COMMITTEE_SIZE / SYNC_COMMITTEE_SUBNET_COUNT) == subnet)
+
+// get_sync_subcommittee_pubkeys: positions [subnet*size, (subnet+1)*size) of the sync committee, size = SYNC_COMMITTEE_SIZE / SYNC_COMMITTEE_SUBNET_COUNT
+//@ func (isc *IndexedSyncCommittee) Subcommittee(spec, subnet) (pubs, indices, err)
+//@   property C07 C12
+//@   requires isc != nil && spec != nil && len(isc.CachedPubkeys) == spec.SYNC_COMMITTEE_SIZE && len(isc.Indices) == spec.SYNC_COMMITTEE_SIZE
+//@   ensures range: (err != nil) == (subnet >= SYNC_COMMITTEE_SUBNET_COUNT)
+//@   ensures size: err == nil ==> len(indices) == spec.SYNC_COMMITTEE_SIZE / SYNC_COMMITTEE_SUBNET_COUNT && len(pubs) == len(indices)
+//@   ensures members: err == nil ==> (forall j :: {indices[j]} {pubs[j]} 0 <= j && j < len(indices) ==> indices[j] == isc.Indices[subnet * (spec.SYNC_COMMITTEE_SIZE / SYNC_COMMITTEE_SUBNET_COUNT) + j] && pubs[j] == isc.CachedPubkeys[subnet * (spec.SYNC_COMMITTEE_SIZE / SYNC_COMMITTEE_SUBNET_COUNT) + j])
